@@ -4,9 +4,12 @@ Conservation of physical pages (C10): what one driver operation does to the two 
 can be — a device free list (`s.pool.frees`) or a page-table entry (`livePages s`).
 
 `Cons k s s'` = no page enters circulation from nowhere, and `k` pages left it: Alloc moves pages
-free → mapped, Free/RemovePage move the page of the entry they unmap mapped → free, but
-Remap / Distribute / AllocatePageWithGivenVAddr / preparePageForMigration take a fresh page for a virtual
-page whose entry is overwritten in place, so the page it was mapped to is on no list any more.
+free → mapped, Free/RemovePage move the page of the entry they unmap mapped → free; Remap / Distribute (repaired)
+take a fresh page for a virtual page whose entry is overwritten in place and give the page it was mapped to
+back to the free list of its device — unless the allocator's record of the virtual address belongs to another
+process. AllocatePageWithGivenVAddr / preparePageForMigration deliberately keep the replaced page (the page
+migration controller still reads it). Every page that is replaced and not given back is counted by the ghost
+field `State.leaked`: `LCons s s'` = `Cons (s'.leaked - s.leaked) s s'`.
 -/
 namespace C10
 
@@ -193,19 +196,104 @@ theorem free_cons {s s' : State} {ptr : Nat}
   have := removePages_cons _ { s with npages := (ptr, 0) :: s.npages } s' hP hM h
   exact ⟨this.sub, this.count⟩
 
-/-! ### Remap / Distribute / AllocatePageWithGivenVAddr / preparePageForMigration -/
+/-! ### the ghost field `leaked`: pages replaced in a page-table entry and not given back -/
 
-theorem remapLoop_cons (π : Nat) (u : Bool) : ∀ (vs ps : List Nat) (s s' : State),
-    remapLoop π u vs ps s = .ok s' →
-    s'.pool = s.pool ∧ s'.ps = s.ps ∧ s'.pt.length = s.pt.length ∧
-    ∀ p ∈ livePages s', p ∈ livePages s ∨ p ∈ ps := by
+/-- `Cons` with the growth of the ghost field as the number of pages that left circulation -/
+structure LCons (s s' : State) : Prop where
+  le : s.leaked ≤ s'.leaked
+  cons : Cons (s'.leaked - s.leaked) s s'
+
+theorem LCons.refl (s : State) : LCons s s := ⟨Nat.le_refl _, (Cons.refl s).cast (by omega)⟩
+
+theorem LCons.trans {a b c : State} (h1 : LCons a b) (h2 : LCons b c) : LCons a c :=
+  ⟨Nat.le_trans h1.le h2.le, (h1.cons.trans h2.cons).cast (by have := h1.le; have := h2.le; omega)⟩
+
+/-- an operation that drops no page and leaves the ghost field alone -/
+theorem LCons.of_cons {s s' : State} (h : Cons 0 s s') (e : s'.leaked = s.leaked) : LCons s s' :=
+  ⟨by omega, h.cast (by omega)⟩
+
+theorem LCons.setCtx {s s' : State} (h : LCons s s') (c : Nat) (x : Ctx) : LCons s (setCtx s' c x) :=
+  ⟨h.le, h.cons.setCtx c x⟩
+
+theorem allocLoop_leaked (π d : Nat) (u : Bool) : ∀ (k v : Nat) (s s' : State),
+    allocLoop π d u k v s = .ok s' → s'.leaked = s.leaked := by
+  intro k
+  induction k with
+  | zero => intro v s s' h; simp [allocLoop] at h; subst h; rfl
+  | succ k ih =>
+    intro v s s' h
+    simp only [allocLoop] at h
+    split at h
+    · simp at h
+    · split at h
+      · simp at h
+      · split at h
+        · simp at h
+        · have := ih _ _ s' h
+          exact this
+
+theorem allocatePages_leaked {s s' : State} {n π d v : Nat} {u : Bool}
+    (h : allocatePages s n π d u = .ok (v, s')) : s'.leaked = s.leaked := by
+  unfold allocatePages at h
+  dsimp only at h
+  split at h
+  · simp at h
+  · rename_i s1 hl
+    injection h with h
+    obtain ⟨_, rfl⟩ := Prod.mk.inj h
+    have := allocLoop_leaked π d u _ _ _ _ hl
+    exact this
+
+theorem removePage_leaked {s s' : State} {v : Nat} (h : removePage s v = .ok s') : s'.leaked = s.leaked := by
+  unfold removePage at h
+  split at h
+  · simp at h
+  · split at h
+    · simp at h
+    · split at h
+      · simp at h
+      · injection h with h; subst h; rfl
+
+theorem removePages_leaked : ∀ (vs : List Nat) (s s' : State), removePages vs s = .ok s' → s'.leaked = s.leaked := by
   intro vs
   induction vs with
-  | nil => intro ps s s' h; simp [remapLoop] at h; subst h; exact ⟨rfl, rfl, rfl, fun _ hp => Or.inl hp⟩
+  | nil => intro s s' h; simp [removePages] at h; subst h; rfl
   | cons v vs ih =>
-    intro ps s s' h
+    intro s s' h
+    simp only [removePages] at h
+    split at h
+    · simp at h
+    · rename_i s1 h1
+      exact (ih s1 s' h).trans (removePage_leaked h1)
+
+theorem free_leaked {s s' : State} {ptr : Nat} (h : free s ptr = .ok s') : s'.leaked = s.leaked := by
+  unfold free at h
+  exact removePages_leaked _ { s with npages := (ptr, 0) :: s.npages } s' h
+
+/-! ### Remap / Distribute (repaired: the replaced page goes back to its device) -/
+
+/-- the loop of allocateMultiplePagesWithGivenVAddrs: every iteration re-points one entry to a fresh page and either
+appends the page the entry named before to a free list or counts it in `leaked`; no other page appears. -/
+theorem remapLoop_cons (π : Nat) (u : Bool) : ∀ (vs ps : List Nat) (s s' : State),
+    s.pool.frees.length = s.devs.length → MirrorWeak s.mirror s.pt →
+    remapLoop π u vs ps s = .ok s' →
+    s'.devs = s.devs ∧ s'.pt.length = s.pt.length ∧ s.leaked ≤ s'.leaked ∧
+    s'.pool.frees.flatten.length + s'.leaked =
+      s.pool.frees.flatten.length + s.leaked + min vs.length ps.length ∧
+    ∀ q, q ∈ s'.pool.frees.flatten ∨ q ∈ livePages s' →
+      q ∈ s.pool.frees.flatten ∨ q ∈ livePages s ∨ q ∈ ps := by
+  intro vs
+  induction vs with
+  | nil =>
+    intro ps s s' _ _ h
+    simp [remapLoop] at h; subst h
+    exact ⟨rfl, rfl, Nat.le_refl _, by simp, fun q hq => hq.elim Or.inl (fun x => Or.inr (Or.inl x))⟩
+  | cons v vs ih =>
+    intro ps s s' hlen hM h
     cases ps with
-    | nil => simp [remapLoop] at h; subst h; exact ⟨rfl, rfl, rfl, fun _ hp => Or.inl hp⟩
+    | nil =>
+      simp [remapLoop] at h; subst h
+      exact ⟨rfl, rfl, Nat.le_refl _, by simp, fun q hq => hq.elim Or.inl (fun x => Or.inr (Or.inl x))⟩
     | cons p ps =>
       simp only [remapLoop] at h
       split at h
@@ -214,62 +302,120 @@ theorem remapLoop_cons (π : Nat) (u : Bool) : ∀ (vs ps : List Nat) (s s' : St
         split at h
         · simp at h
         · rename_i pt' hu
-          obtain ⟨_, rfl⟩ := ptUpdate_ok hu
-          obtain ⟨a, b, c, e⟩ := ih ps _ s' h
-          refine ⟨a, b, by rw [c]; simp, ?_⟩
-          intro q hq
-          rcases e q hq with hq' | hq'
-          · obtain ⟨x, hx, rfl⟩ := List.mem_map.mp hq'
-            rcases mem_map_upd hx with rfl | hx'
-            · exact Or.inr (List.mem_cons_self ..)
-            · exact Or.inl (List.mem_map_of_mem hx')
-          · exact Or.inr (List.mem_cons_of_mem _ hq')
+          split at h
+          · simp at h
+          · rename_i s1 hr
+            obtain ⟨⟨e, hfind⟩, hpt⟩ := ptUpdate_ok hu
+            obtain ⟨he1, he2, he3⟩ := ptFind_some hfind
+            subst hpt
+            have hM0 : MirrorWeak ((v, mkPg π v p dev u) :: s.mirror) (s.pt.map (upd (mkPg π v p dev u))) :=
+              hM.push_update rfl
+            have hlive : ∀ q ∈ (s.pt.map (upd (mkPg π v p dev u))).map (·.paddr), q = p ∨ q ∈ livePages s := by
+              intro q hq
+              obtain ⟨x, hx, rfl⟩ := List.mem_map.mp hq
+              rcases mem_map_upd hx with rfl | hx'
+              · exact Or.inl rfl
+              · exact Or.inr (List.mem_map_of_mem hx')
+            have hmin : min (v :: vs).length (p :: ps).length = min vs.length ps.length + 1 := by
+              simp only [List.length_cons]; omega
+            rw [hmin]
+            rcases releaseReplaced_ok hr with ⟨old, d, hl, hp, hdo, rfl⟩ | ⟨_, rfl⟩
+            · -- the record belongs to the caller: the page of the overwritten entry goes to its device
+              have hpa : e.paddr = old.paddr := hM.2 v old hl e he1 (he2.trans hp.symm) he3
+              have hdlt : d < s.pool.frees.length := by
+                obtain ⟨dv, hdv, _, _⟩ := devOf_spec hdo
+                rw [hlen]
+                rcases Nat.lt_or_ge d s.devs.length with hl' | hl'
+                · exact hl'
+                · have hdv' : s.devs[d]? = some dv := hdv
+                  simp [List.getElem?_eq_none hl'] at hdv'
+              have hperm := flatten_modify_perm s.pool.frees d old.paddr hdlt
+              have hpl := hperm.length_eq
+              rw [List.length_cons] at hpl
+              obtain ⟨a, b, c, f, g⟩ := ih ps _ s'
+                (by show (s.pool.frees.modify d _).length = s.devs.length
+                    rw [List.length_modify]; exact hlen) hM0 h
+              have a' : s'.devs = s.devs := a
+              have b' : s'.pt.length = (s.pt.map (upd (mkPg π v p dev u))).length := b
+              have c' : s.leaked ≤ s'.leaked := c
+              have f' : s'.pool.frees.flatten.length + s'.leaked =
+                  (s.pool.frees.modify d (· ++ [old.paddr])).flatten.length + s.leaked + min vs.length ps.length := f
+              refine ⟨a', by rw [b', List.length_map], c', by omega, ?_⟩
+              intro q hq
+              rcases g q hq with h1 | h1 | h1
+              · have h1' : q ∈ (s.pool.frees.modify d (· ++ [old.paddr])).flatten := h1
+                rcases List.mem_cons.mp (hperm.mem_iff.mp h1') with rfl | h2
+                · exact Or.inr (Or.inl (hpa ▸ List.mem_map_of_mem he1))
+                · exact Or.inl h2
+              · rcases hlive q h1 with rfl | h2
+                · exact Or.inr (Or.inr (List.mem_cons_self ..))
+                · exact Or.inr (Or.inl h2)
+              · exact Or.inr (Or.inr (List.mem_cons_of_mem _ h1))
+            · -- no record of the caller: the replaced page is not given back
+              obtain ⟨a, b, c, f, g⟩ := ih ps _ s' (by exact hlen) (by exact hM0) h
+              have a' : s'.devs = s.devs := a
+              have b' : s'.pt.length = (s.pt.map (upd (mkPg π v p dev u))).length := b
+              have c' : s.leaked + 1 ≤ s'.leaked := c
+              have f' : s'.pool.frees.flatten.length + s'.leaked =
+                  s.pool.frees.flatten.length + (s.leaked + 1) + min vs.length ps.length := f
+              refine ⟨a', by rw [b', List.length_map], by omega, by omega, ?_⟩
+              intro q hq
+              rcases g q hq with h1 | h1 | h1
+              · exact Or.inl h1
+              · rcases hlive q h1 with rfl | h2
+                · exact Or.inr (Or.inr (List.mem_cons_self ..))
+                · exact Or.inr (Or.inl h2)
+              · exact Or.inr (Or.inr (List.mem_cons_of_mem _ h1))
 
-theorem remap_cons {s s' : State} {π addr bytes d : Nat} (h : remap s π addr bytes d = .ok s') :
-    Cons (remapVAddrs s.ps addr bytes).length s s' ∧ s'.ps = s.ps := by
+/-- MemoryAllocator.Remap: the fresh pages leave the free lists, the replaced pages come back or are counted -/
+theorem remap_cons {s s' : State} {π addr bytes d : Nat}
+    (hP : PInv s.ps s.devs s.pool.frees s.pt) (hM : MirrorWeak s.mirror s.pt)
+    (h : remap s π addr bytes d = .ok s') : LCons s s' := by
   unfold remap at h
   dsimp only at h
   split at h
   · simp at h
   · rename_i ps pool' hm
     obtain ⟨ht, hlen⟩ := allocMulti_took hm
-    obtain ⟨a, b, c, e⟩ := remapLoop_cons π false _ ps { s with pool := pool' } s' h
-    have a' : s'.pool = pool' := a
-    refine ⟨Cons.of_took (t := ps) (by rw [a']; exact ht) e ?_, b⟩
+    obtain ⟨_, c, le, cnt, sub⟩ := remapLoop_cons π false _ ps { s with pool := pool' } s'
+      (ht.len.trans hP.len) hM h
     have c' : s'.pt.length = s.pt.length := c
-    omega
+    have le' : s.leaked ≤ s'.leaked := le
+    have cnt' : s'.pool.frees.flatten.length + s'.leaked =
+        pool'.frees.flatten.length + s.leaked + min (remapVAddrs s.ps addr bytes).length ps.length := cnt
+    have hpl := ht.perm.length_eq
+    rw [List.length_append] at hpl
+    refine ⟨le', ?_, ?_⟩
+    · intro q hq
+      rcases sub q hq with h1 | h1 | h1
+      · exact Or.inl (ht.perm.mem_iff.mpr (List.mem_append_right _ h1))
+      · exact Or.inr h1
+      · exact Or.inl (ht.perm.mem_iff.mpr (List.mem_append_left _ h1))
+    · omega
 
 theorem remapAll_cons (π : Nat) (ids : List Nat) : ∀ (plan : List (Nat × Nat × Nat)) (s s' : State),
-    remapAll π ids plan s = .ok s' →
-    Cons ((plan.map fun r => (remapVAddrs s.ps r.1 r.2.1).length).sum) s s' ∧ s'.ps = s.ps := by
+    PInv s.ps s.devs s.pool.frees s.pt → MirrorWeak s.mirror s.pt →
+    remapAll π ids plan s = .ok s' → LCons s s' := by
   intro plan
   induction plan with
-  | nil => intro s s' h; simp [remapAll] at h; subst h; exact ⟨Cons.refl _, rfl⟩
+  | nil => intro s s' _ _ h; simp [remapAll] at h; subst h; exact LCons.refl _
   | cons r rest ih =>
-    intro s s' h
+    intro s s' hP hM h
     obtain ⟨a, b, i⟩ := r
     simp only [remapAll] at h
     split at h
     · simp at h
     · rename_i s1 h1
-      obtain ⟨c1, e1⟩ := remap_cons h1
-      obtain ⟨c2, e2⟩ := ih s1 s' h
-      rw [e1] at c2
-      refine ⟨?_, e2.trans e1⟩
-      rw [List.map_cons, List.sum_cons]
-      exact c1.trans c2
+      exact (remap_cons hP hM h1).trans (ih s1 s' (remap_pres hP hM h1).1 (remap_ext hM h1).1 h)
 
 theorem distribute_cons {s s' : State} {π addr bytes : Nat} {ids bs : List Nat}
-    (h : distribute s π addr bytes ids = .ok (bs, s')) :
-    Cons (if ids.length = 1 then 0
-          else ((distPlan s.ps addr bytes ids.length).map fun r => (remapVAddrs s.ps r.1 r.2.1).length).sum) s s' := by
+    (hP : PInv s.ps s.devs s.pool.frees s.pt) (hM : MirrorWeak s.mirror s.pt)
+    (h : distribute s π addr bytes ids = .ok (bs, s')) : LCons s s' := by
   unfold distribute at h
   split at h
-  · rename_i h1
-    injection h with h; obtain ⟨_, rfl⟩ := Prod.mk.inj h
-    rw [if_pos h1]; exact Cons.refl _
-  · rename_i h1
-    split at h
+  · injection h with h; obtain ⟨_, rfl⟩ := Prod.mk.inj h
+    exact LCons.refl _
+  · split at h
     · simp at h
     · split at h
       · simp at h
@@ -277,12 +423,13 @@ theorem distribute_cons {s s' : State} {π addr bytes : Nat} {ids bs : List Nat}
         · simp at h
         · rename_i s1 hr
           injection h with h; obtain ⟨_, rfl⟩ := Prod.mk.inj h
-          rw [if_neg h1]
-          exact (remapAll_cons π ids _ s _ hr).1
+          exact remapAll_cons π ids _ s _ hP hM hr
+
+/-! ### AllocatePageWithGivenVAddr / preparePageForMigration (the replaced page is deliberately kept) -/
 
 theorem allocGiven_cons {s s' : State} {π d v : Nat} {u : Bool} {pg : Page}
     (h : allocGiven s π d v u = .ok (pg, s')) :
-    Cons 1 s s' ∧ pg.paddr ∈ livePages s' ∧ s'.pt.length = s.pt.length := by
+    LCons s s' ∧ s'.leaked = s.leaked + 1 ∧ pg.paddr ∈ livePages s' ∧ s'.pt.length = s.pt.length := by
   unfold allocGiven at h
   split at h
   · simp at h
@@ -298,20 +445,23 @@ theorem allocGiven_cons {s s' : State} {π d v : Nat} {u : Bool} {pg : Page}
         obtain ⟨rfl, rfl⟩ := Prod.mk.inj h
         obtain ⟨⟨e, he⟩, rfl⟩ := ptUpdate_ok hu
         obtain ⟨he1, he2, he3⟩ := ptFind_some he
-        refine ⟨Cons.of_took (t := [p]) (allocPage_took hp) ?_ (by simp), ?_, by simp⟩
-        · intro q hq
+        have hc : Cons 1 s { s with pool := pool', pt := s.pt.map (upd (mkPg π v p dev u)),
+                                    mirror := (v, mkPg π v p dev u) :: s.mirror, leaked := s.leaked + 1 } := by
+          refine Cons.of_took (t := [p]) (allocPage_took hp) ?_ (by simp)
+          intro q hq
           obtain ⟨x, hx, rfl⟩ := List.mem_map.mp hq
           rcases mem_map_upd hx with rfl | hx'
           · exact Or.inr (List.mem_cons_self ..)
           · exact Or.inl (List.mem_map_of_mem hx')
-        · apply List.mem_map.mpr
-          refine ⟨mkPg π v p dev u, ?_, rfl⟩
-          apply List.mem_map.mpr
-          refine ⟨e, he1, ?_⟩
-          simp [upd, he2, he3]
+        refine ⟨⟨Nat.le_succ _, hc.cast (by show 1 = s.leaked + 1 - s.leaked; omega)⟩, rfl, ?_, by simp⟩
+        apply List.mem_map.mpr
+        refine ⟨mkPg π v p dev u, ?_, rfl⟩
+        apply List.mem_map.mpr
+        refine ⟨e, he1, ?_⟩
+        simp [upd, he2, he3]
 
 theorem prepareMigration_cons {s s' : State} {π v g : Nat} {r : Nat × Nat}
-    (h : prepareMigration s π v g = .ok (r, s')) : Cons 1 s s' := by
+    (h : prepareMigration s π v g = .ok (r, s')) : LCons s s' ∧ s'.leaked = s.leaked + 1 := by
   unfold prepareMigration at h
   split at h
   · simp at h
@@ -325,7 +475,7 @@ theorem prepareMigration_cons {s s' : State} {π v g : Nat} {r : Nat × Nat}
       · rename_i pt' hu
         injection h with h
         obtain ⟨_, rfl⟩ := Prod.mk.inj h
-        obtain ⟨c1, hin, _⟩ := allocGiven_cons h1
+        obtain ⟨c1, hk, hin, _⟩ := allocGiven_cons h1
         obtain ⟨_, rfl⟩ := ptUpdate_ok hu
         have c2 : Cons 0 s1 { s1 with pt := s1.pt.map (upd { pg with dev := g + 1, migrating := true }) } := by
           refine ⟨?_, by simp⟩
@@ -337,7 +487,7 @@ theorem prepareMigration_cons {s s' : State} {π v g : Nat} {r : Nat × Nat}
             rcases mem_map_upd hx with rfl | hx'
             · exact hin
             · exact List.mem_map_of_mem hx'
-        exact c1.trans c2
+        exact ⟨c1.trans (LCons.of_cons c2 rfl), hk⟩
 
 /-! ### CreateUnifiedGPU registers a device without pages -/
 
@@ -359,143 +509,299 @@ theorem registerDevice_zero_cons {s : State} (hps : 0 < s.ps) (kind : Kind) (act
 
 /-! ### one driver step -/
 
-/-- every successful driver operation moves pages between the free lists and the page table, creates none,
-and drops exactly `rehomed s op` of them -/
-theorem step_cons {s s' : State} {op : Op} {r : Res} (hW : WInv s) (h : step s op = .ok (r, s')) :
-    Cons (rehomed s op) s s' := by
+/-- an operation that overwrites no page-table entry in place leaves the ghost field alone -/
+theorem step_leaked_noRehome {s s' : State} {op : Op} {r : Res} (hn : op.noRehome = true)
+    (h : step s op = .ok (r, s')) : s'.leaked = s.leaked := by
   cases op with
-  | init => rw [step_init h]; exact Cons.of_eq rfl rfl
-  | initpid c =>
-    obtain ⟨cx, _, rfl⟩ := step_initpid h
-    exact Cons.of_eq rfl rfl
-  | sel c g =>
-    obtain ⟨cx, _, rfl⟩ := step_sel h
-    exact Cons.of_eq rfl rfl
-  | unify c ids =>
-    rw [step_unify h]
-    exact registerDevice_zero_cons hW.phys.pspos _ _
+  | init => rw [step_init h]
+  | initpid c => obtain ⟨cx, _, rfl⟩ := step_initpid h; rfl
+  | sel c g => obtain ⟨cx, _, rfl⟩ := step_sel h; rfl
+  | unify c ids => rw [step_unify h]; rfl
   | alloc c bytes =>
     obtain ⟨cx, v, s1, _, h1, rfl, _⟩ := step_alloc h
     obtain ⟨_, h1⟩ := allocate_ok h1
-    exact (allocatePages_cons h1).setCtx _ _
+    have := allocatePages_leaked h1
+    exact this
   | allocu c bytes =>
     obtain ⟨cx, v, s1, _, h1, rfl, _⟩ := step_allocu h
     obtain ⟨_, h1⟩ := allocateUnified_ok h1
-    exact (allocatePages_cons h1).setCtx _ _
+    have := allocatePages_leaked h1
+    exact this
   | free c ptr =>
     obtain ⟨cx, s1, _, h1, rfl⟩ := step_free h
-    exact (free_cons hW.phys hW.mw h1).setCtx _ _
+    have := free_leaked h1
+    exact this
+  | remap c addr bytes d => simp [Op.noRehome] at hn
+  | dist c addr bytes ids => simp [Op.noRehome] at hn
+  | mig c v g => simp [Op.noRehome] at hn
+  | rmpage v => exact removePage_leaked (step_rmpage h)
+  | apg c d v u => simp [Op.noRehome] at hn
+  | rfb c => obtain ⟨cx, _, rfl⟩ := step_rfb h; rfl
+
+/-- every successful driver operation moves pages between the free lists and the page table, creates none,
+and drops exactly as many as it adds to the ghost field `leaked` -/
+theorem step_cons {s s' : State} {op : Op} {r : Res} (hW : WInv s) (h : step s op = .ok (r, s')) :
+    LCons s s' := by
+  cases op with
+  | init => rw [step_init h]; exact LCons.of_cons (Cons.of_eq rfl rfl) rfl
+  | initpid c =>
+    obtain ⟨cx, _, rfl⟩ := step_initpid h
+    exact LCons.of_cons (Cons.of_eq rfl rfl) rfl
+  | sel c g =>
+    obtain ⟨cx, _, rfl⟩ := step_sel h
+    exact LCons.of_cons (Cons.of_eq rfl rfl) rfl
+  | unify c ids =>
+    rw [step_unify h]
+    exact LCons.of_cons (registerDevice_zero_cons hW.phys.pspos _ _) rfl
+  | alloc c bytes =>
+    obtain ⟨cx, v, s1, _, h1, rfl, _⟩ := step_alloc h
+    obtain ⟨_, h1⟩ := allocate_ok h1
+    exact (LCons.of_cons (allocatePages_cons h1) (allocatePages_leaked h1)).setCtx _ _
+  | allocu c bytes =>
+    obtain ⟨cx, v, s1, _, h1, rfl, _⟩ := step_allocu h
+    obtain ⟨_, h1⟩ := allocateUnified_ok h1
+    exact (LCons.of_cons (allocatePages_cons h1) (allocatePages_leaked h1)).setCtx _ _
+  | free c ptr =>
+    obtain ⟨cx, s1, _, h1, rfl⟩ := step_free h
+    exact (LCons.of_cons (free_cons hW.phys hW.mw h1) (free_leaked h1)).setCtx _ _
   | remap c addr bytes d =>
     obtain ⟨cx, _, h1⟩ := step_remap h
-    exact (remap_cons h1).1
+    exact remap_cons hW.phys hW.mw h1
   | dist c addr bytes ids =>
     obtain ⟨cx, bs, _, h1⟩ := step_dist h
-    exact distribute_cons h1
+    exact distribute_cons hW.phys hW.mw h1
   | mig c v g =>
     obtain ⟨cx, no, _, h1⟩ := step_mig h
-    exact prepareMigration_cons h1
-  | rmpage v => exact removePage_cons hW.phys hW.mw (step_rmpage h)
+    exact (prepareMigration_cons h1).1
+  | rmpage v =>
+    have h1 := step_rmpage h
+    exact LCons.of_cons (removePage_cons hW.phys hW.mw h1) (removePage_leaked h1)
   | apg c d v u =>
     obtain ⟨cx, pg, _, h1⟩ := step_apg h
     exact (allocGiven_cons h1).1
   | rfb c =>
     obtain ⟨cx, _, rfl⟩ := step_rfb h
-    exact Cons.of_eq rfl rfl
+    exact LCons.of_cons (Cons.of_eq rfl rfl) rfl
 
 /-- (a) no page enters circulation from nowhere -/
 theorem step_sub {s s' : State} {op : Op} {r : Res} (hW : WInv s) (h : step s op = .ok (r, s')) :
     ∀ p, p ∈ s'.pool.frees.flatten ∨ p ∈ livePages s' → p ∈ s.pool.frees.flatten ∨ p ∈ livePages s :=
-  (step_cons hW h).sub
+  (step_cons hW h).cons.sub
 
-/-- (b) free pages + mapped pages + pages re-homed by this step = free pages + mapped pages before -/
+/-- (b) free pages + mapped pages + pages this step replaced and did not give back = free pages + mapped
+pages before -/
 theorem step_count {s s' : State} {op : Op} {r : Res} (hW : WInv s) (h : step s op = .ok (r, s')) :
-    s'.pool.frees.flatten.length + s'.pt.length + rehomed s op = s.pool.frees.flatten.length + s.pt.length :=
-  (step_cons hW h).count
+    s'.pool.frees.flatten.length + s'.pt.length + (s'.leaked - s.leaked) =
+      s.pool.frees.flatten.length + s.pt.length :=
+  (step_cons hW h).cons.count
+
+/-- the ghost field never decreases -/
+theorem step_leaked_le {s s' : State} {op : Op} {r : Res} (hW : WInv s) (h : step s op = .ok (r, s')) :
+    s.leaked ≤ s'.leaked :=
+  (step_cons hW h).le
+
+/-- migration and AllocatePageWithGivenVAddr keep exactly the one page they replace -/
+theorem step_leaked_mig_apg {s s' : State} {op : Op} {r : Res} (hk : op.keepsPages = false)
+    (h : step s op = .ok (r, s')) : s'.leaked = s.leaked + 1 := by
+  cases op with
+  | mig c v g =>
+    obtain ⟨cx, no, _, h1⟩ := step_mig h
+    exact (prepareMigration_cons h1).2
+  | apg c d v u =>
+    obtain ⟨cx, pg, _, h1⟩ := step_apg h
+    exact (allocGiven_cons h1).2.1
+  | _ => simp [Op.keepsPages] at hk
 
 /-! ### histories -/
 
-theorem runR_run : ∀ (ops : List Op) (s : State) (k : Nat) (s' : State) (k' : Nat),
-    runR s k ops = .ok (s', k') → run s ops = .ok s' := by
+/-- the growth of the ghost field over a history = the pages dropped; all invariants are kept -/
+theorem run_cons {n : Nat} : ∀ (ops : List Op) (s s' : State),
+    WInv s → GpuOK n s → (∀ op ∈ ops, MigOK n op) → run s ops = .ok s' →
+    LCons s s' ∧ WInv s' ∧ GpuOK n s' := by
   intro ops
   induction ops with
   | nil =>
-    intro s k s' k' h
-    simp only [runR] at h
-    injection h with h
-    rw [(Prod.mk.inj h).1]; rfl
-  | cons op ops ih =>
-    intro s k s' k' h
-    simp only [runR] at h
-    simp only [run]
-    split at h
-    · simp at h
-    · exact ih _ _ _ _ h
-
-theorem run_runR : ∀ (ops : List Op) (s : State) (k : Nat) (s' : State),
-    run s ops = .ok s' → ∃ k', runR s k ops = .ok (s', k') := by
-  intro ops
-  induction ops with
-  | nil =>
-    intro s k s' h
+    intro s s' hW hG _ h
     simp only [run] at h
     injection h with h
-    exact ⟨k, by rw [h]; rfl⟩
+    subst h
+    exact ⟨LCons.refl _, hW, hG⟩
   | cons op ops ih =>
-    intro s k s' h
+    intro s s' hW hG hm h
     simp only [run] at h
-    simp only [runR]
-    split at h
-    · simp at h
-    · exact ih _ _ _ h
-
-/-- the ghost counter of a history = the pages dropped; all invariants are kept -/
-theorem runR_cons {n : Nat} : ∀ (ops : List Op) (s : State) (k : Nat) (s' : State) (k' : Nat),
-    WInv s → GpuOK n s → (∀ op ∈ ops, MigOK n op) → runR s k ops = .ok (s', k') →
-    ∃ j, k' = k + j ∧ Cons j s s' ∧ WInv s' ∧ GpuOK n s' := by
-  intro ops
-  induction ops with
-  | nil =>
-    intro s k s' k' hW hG _ h
-    simp only [runR] at h
-    injection h with h
-    obtain ⟨rfl, rfl⟩ := Prod.mk.inj h
-    exact ⟨0, rfl, Cons.refl _, hW, hG⟩
-  | cons op ops ih =>
-    intro s k s' k' hW hG hm h
-    simp only [runR] at h
     split at h
     · simp at h
     · rename_i r s1 h1
       obtain ⟨a, b⟩ := step_w hW hG (hm op (List.mem_cons_self ..)) h1
-      obtain ⟨j, e, c, w, g⟩ := ih s1 _ s' k' a b (fun o ho => hm o (List.mem_cons_of_mem _ ho)) h
-      exact ⟨rehomed s op + j, by omega, (step_cons hW h1).trans c, w, g⟩
-
-theorem rehomed_noRehome {s : State} {op : Op} (h : op.noRehome = true) : rehomed s op = 0 := by
-  cases op <;> simp [Op.noRehome] at h <;> rfl
+      obtain ⟨c, w, g⟩ := ih s1 s' a b (fun o ho => hm o (List.mem_cons_of_mem _ ho)) h
+      exact ⟨(step_cons hW h1).trans c, w, g⟩
 
 theorem migOK_of_noRehome {n : Nat} {op : Op} (h : op.noRehome = true) : MigOK n op := by
   cases op <;> simp [Op.noRehome] at h <;> trivial
 
-/-- a history without re-homing operations leaves the ghost counter alone -/
-theorem runR_noRehome : ∀ (ops : List Op) (s : State) (k : Nat) (s' : State) (k' : Nat),
-    ops.all Op.noRehome = true → runR s k ops = .ok (s', k') → k' = k := by
+theorem migOK_of_keepsPages {n : Nat} {op : Op} (h : op.keepsPages = true) : MigOK n op := by
+  cases op <;> simp [Op.keepsPages] at h <;> trivial
+
+/-- a history without operations that overwrite an entry in place leaves the ghost field alone -/
+theorem run_leaked_noRehome : ∀ (ops : List Op) (s s' : State),
+    ops.all Op.noRehome = true → run s ops = .ok s' → s'.leaked = s.leaked := by
   intro ops
   induction ops with
   | nil =>
-    intro s k s' k' _ h
-    simp only [runR] at h
+    intro s s' _ h
+    simp only [run] at h
     injection h with h
-    exact (Prod.mk.inj h).2.symm
+    subst h; rfl
   | cons op ops ih =>
-    intro s k s' k' ha h
+    intro s s' ha h
     simp only [List.all_cons, Bool.and_eq_true] at ha
-    simp only [runR] at h
+    simp only [run] at h
     split at h
     · simp at h
     · rename_i r s1 h1
-      have := ih _ _ _ _ ha.2 h
-      rw [rehomed_noRehome ha.1] at this
-      exact this
+      exact (ih s1 s' ha.2 h).trans (step_leaked_noRehome ha.1 h1)
+
+/-! ### a single process: Remap and Distribute never leak -/
+
+/-- the allocator's record (head of the mirror) of every virtual address mapped by process `π` belongs to `π` -/
+def HeadOK (π : Nat) (mirror : List (Nat × Page)) (pt : List Page) : Prop :=
+  ∀ e ∈ pt, e.pid = π → ∃ m, lookup mirror e.vaddr = some m ∧ m.pid = π
+
+/-- mirror agreement (kept by single-process histories) gives it for every process -/
+theorem HeadOK.of_ok {s : State} (h : MirrorOK s) (π : Nat) : HeadOK π s.mirror s.pt := by
+  intro e he hp
+  have hag := h.1 e he
+  cases hl : lookup s.mirror e.vaddr with
+  | none => rw [hl] at hag; simp [agreesB] at hag
+  | some m =>
+    rw [hl] at hag
+    simp [agreesB] at hag
+    exact ⟨m, rfl, hag.1.1.trans hp⟩
+
+/-- under `HeadOK` every iteration of the loop takes the release branch (the pushes of the loop itself carry `π`) -/
+theorem remapLoop_noleak (π : Nat) (u : Bool) : ∀ (vs ps : List Nat) (s s' : State),
+    HeadOK π s.mirror s.pt → remapLoop π u vs ps s = .ok s' →
+    s'.leaked = s.leaked ∧ HeadOK π s'.mirror s'.pt := by
+  intro vs
+  induction vs with
+  | nil => intro ps s s' hH h; simp [remapLoop] at h; subst h; exact ⟨rfl, hH⟩
+  | cons v vs ih =>
+    intro ps s s' hH h
+    cases ps with
+    | nil => simp [remapLoop] at h; subst h; exact ⟨rfl, hH⟩
+    | cons p ps =>
+      simp only [remapLoop] at h
+      split at h
+      · simp at h
+      · rename_i dev hd
+        split at h
+        · simp at h
+        · rename_i pt' hu
+          split at h
+          · simp at h
+          · rename_i s1 hr
+            obtain ⟨⟨e, hfind⟩, hpt⟩ := ptUpdate_ok hu
+            obtain ⟨he1, he2, he3⟩ := ptFind_some hfind
+            subst hpt
+            obtain ⟨m, hm, hmp⟩ := hH e he1 he2
+            have he3' : e.vaddr = v := he3
+            rw [he3'] at hm
+            have hH0 : HeadOK π ((v, mkPg π v p dev u) :: s.mirror) (s.pt.map (upd (mkPg π v p dev u))) := by
+              intro x hx hxp
+              by_cases hv : v = x.vaddr
+              · refine ⟨mkPg π v p dev u, ?_, rfl⟩
+                rw [← hv]; exact lookup_cons_eq _ _ _
+              · rw [lookup_cons_ne _ _ _ _ hv]
+                rcases mem_map_upd hx with rfl | hx'
+                · exact absurd rfl hv
+                · exact hH x hx' hxp
+            rcases releaseReplaced_ok hr with ⟨_, _, _, _, _, rfl⟩ | ⟨hno, _⟩
+            · have := ih ps _ s' (by exact hH0) h
+              exact this
+            · exact absurd hmp (hno m hm)
+
+theorem remap_noleak {s s' : State} {π addr bytes d : Nat} (hH : HeadOK π s.mirror s.pt)
+    (h : remap s π addr bytes d = .ok s') : s'.leaked = s.leaked ∧ HeadOK π s'.mirror s'.pt := by
+  unfold remap at h
+  dsimp only at h
+  split at h
+  · simp at h
+  · rename_i ps pool' hm
+    exact remapLoop_noleak π false _ ps { s with pool := pool' } s' hH h
+
+theorem remapAll_noleak (π : Nat) (ids : List Nat) : ∀ (plan : List (Nat × Nat × Nat)) (s s' : State),
+    HeadOK π s.mirror s.pt → remapAll π ids plan s = .ok s' →
+    s'.leaked = s.leaked ∧ HeadOK π s'.mirror s'.pt := by
+  intro plan
+  induction plan with
+  | nil => intro s s' hH h; simp [remapAll] at h; subst h; exact ⟨rfl, hH⟩
+  | cons r rest ih =>
+    intro s s' hH h
+    obtain ⟨a, b, i⟩ := r
+    simp only [remapAll] at h
+    split at h
+    · simp at h
+    · rename_i s1 h1
+      obtain ⟨e1, hH1⟩ := remap_noleak hH h1
+      obtain ⟨e2, hH2⟩ := ih s1 s' hH1 h
+      exact ⟨e2.trans e1, hH2⟩
+
+theorem distribute_noleak {s s' : State} {π addr bytes : Nat} {ids bs : List Nat}
+    (hH : HeadOK π s.mirror s.pt) (h : distribute s π addr bytes ids = .ok (bs, s')) : s'.leaked = s.leaked := by
+  unfold distribute at h
+  split at h
+  · injection h with h; obtain ⟨_, rfl⟩ := Prod.mk.inj h; rfl
+  · split at h
+    · simp at h
+    · split at h
+      · simp at h
+      · split at h
+        · simp at h
+        · rename_i s1 hr
+          injection h with h; obtain ⟨_, rfl⟩ := Prod.mk.inj h
+          exact (remapAll_noleak π ids _ s _ hH hr).1
+
+/-- when the allocator's records agree with the page table (single process), every operation except migration and
+AllocatePageWithGivenVAddr gives back or keeps every page it handles -/
+theorem step_noleak {s s' : State} {op : Op} {r : Res} (hM : MirrorOK s) (hk : op.keepsPages = true)
+    (h : step s op = .ok (r, s')) : s'.leaked = s.leaked := by
+  cases op with
+  | remap c addr bytes d =>
+    obtain ⟨cx, _, h1⟩ := step_remap h
+    exact (remap_noleak (HeadOK.of_ok hM _) h1).1
+  | dist c addr bytes ids =>
+    obtain ⟨cx, bs, _, h1⟩ := step_dist h
+    exact distribute_noleak (HeadOK.of_ok hM _) h1
+  | mig c v g => simp [Op.keepsPages] at hk
+  | apg c d v u => simp [Op.keepsPages] at hk
+  | _ => exact step_leaked_noRehome rfl h
+
+/-- a history of a single process without migration / AllocatePageWithGivenVAddr never leaks -/
+theorem run_noleak {n : Nat} : ∀ (ops : List Op) (s s' : State), WInv s → GpuOK n s →
+    OneProc s → MirrorOK s → s.npid + inits ops ≤ 1 → ops.all Op.keepsPages = true →
+    run s ops = .ok s' → s'.leaked = s.leaked := by
+  intro ops
+  induction ops with
+  | nil => intro s s' _ _ _ _ _ _ h; simp [run] at h; subst h; rfl
+  | cons op ops ih =>
+    intro s s' hW hG hO hM hb ha h
+    simp only [List.all_cons, Bool.and_eq_true] at ha
+    simp only [run] at h
+    split at h
+    · simp at h
+    · rename_i r s1 h1
+      have hmo : MigOK n op := migOK_of_keepsPages ha.1
+      obtain ⟨a, b⟩ := step_w hW hG hmo h1
+      have hb' : s.npid + ((if op.isInit then 1 else 0) + inits ops) ≤ 1 := by
+        unfold inits at hb ⊢
+        rw [List.filter_cons] at hb
+        split at hb
+        · rename_i hi; simp only [hi, if_true]; simp only [List.length_cons] at hb; omega
+        · rename_i hi; simp only [hi]; simpa using hb
+      have hi : op.isInit = true → s.npid = 0 := by
+        intro hi; simp only [hi, if_true] at hb'; omega
+      obtain ⟨c, d, e⟩ := step_one hW hG hmo hO hM hi h1
+      exact (ih s1 s' a b c d (by rw [e]; omega) ha.2 h).trans (step_noleak hM ha.1 h1)
 
 /-! ### list facts -/
 
@@ -575,5 +881,27 @@ theorem cons_from_init {ps cpu : Nat} {gpus : List Nat} {s' : State} {j : Nat} (
   have hl : (s'.pool.frees.flatten ++ livePages s').length = s'.pool.frees.flatten.length + s'.pt.length := by
     simp [livePages]
   omega
+
+theorem regGPUs_leaked : ∀ (gpus : List Nat) (s : State), (regGPUs gpus s).leaked = s.leaked := by
+  intro gpus
+  induction gpus with
+  | nil => intro s; rfl
+  | cons g gs ih => intro s; exact ih (registerDevice s .gpu g [])
+
+/-- nothing has leaked before the first operation -/
+theorem initState_leaked (ps cpu : Nat) (gpus : List Nat) : (initState ps cpu gpus).leaked = 0 := by
+  rw [initState_eq, regGPUs_leaked]; rfl
+
+/-- a whole history from `Build` + `RegisterGPU`: exactly `leaked` pages left circulation -/
+theorem run_from_init {ps cpu : Nat} {gpus : List Nat} {ops : List Op} {s' : State} (h : Cfg ps cpu gpus)
+    (hm : ∀ op ∈ ops, MigOK gpus.length op) (hr : run (initState ps cpu gpus) ops = .ok s') :
+    Cons s'.leaked (initState ps cpu gpus) s' ∧ WInv s' := by
+  obtain ⟨hW, hG, _⟩ := init_all h
+  obtain ⟨c, hW', _⟩ := run_cons ops _ s' hW hG hm hr
+  exact ⟨c.cons.cast (by rw [initState_leaked]; omega), hW'⟩
+
+/-- the configuration of the small witnesses: 4 KiB pages, a one-page CPU, one two-page GPU -/
+theorem cfg_small : Cfg 4096 4096 [8192] :=
+  ⟨by decide, ⟨1, rfl⟩, by intro g hg; simp at hg; subst hg; exact ⟨2, rfl⟩⟩
 
 end C10
